@@ -1,8 +1,8 @@
 (** C07 — timers fire once, on time, for their owner, unless cancelled by name. *)
 From Coq Require Import List ZArith NArith Bool.
 Import ListNotations.
-From GS Require Import Num EventLoop Kernel Sim.
-From GS.Proofs Require Import Aux SimP SimP3 SimP4 KernelP.
+From GS Require Import Num EventLoop Kernel Sim NumZ.
+From GS.Proofs Require Import Aux SimP SimP3 SimP4 KernelP TraceSpec TimerSpec.
 
 Section C07.
 Context {F : Type} (A : ArithOps F) {PS : Type} (cfg : scfg F)
@@ -83,6 +83,57 @@ Theorem C07_identifiers_never_reused_init (h : sstate F PS) :
             timer_ids (snd (fst (sim_init A cfg react h))) = ids_from (s_nextid h) n.
 Proof. destruct (sim_init_fresh A cfg react h) as (n & E & T). exists n. auto. Qed.
 
+(** WHOLE RUNS.  [t_next] / [t_ok] (Proofs/TimerSpec.v) replay a trace with an abstract timer
+    table that is changed only by accepted set-timer requests (fresh identifier = the counter),
+    accepted cancel requests (all entries of that node and name) and the execution of a timer
+    event that is still in the table (that entry).  Every run from the state build() leaves --
+    any protocol, any bounds, cut anywhere by the fuel -- is accepted by this acceptor, and the
+    simulator's own pending table and identifier counter are the replayed ones. *)
+Theorem C07_whole_run_refines_timer_table (c : kcfg F) fuel ps0 :
+  let '(s0, i0) := sim_start A cfg ps0 in
+  let '(s', items, fin) := k_run A (sim_hooks A cfg react) c fuel s0 in
+  accept (t_next A cfg) t_ok t0 (i0 ++ items) /\
+  after (t_next A cfg) t0 (i0 ++ items) = mkT (s_pending (k_h s')) (s_nextid (k_h s')) None.
+Proof. exact (whole_run_accepted A cfg react c fuel ps0). Qed.
+
+(** ONLY IF: in an accepted trace a timer callback is the very next thing after the execution of
+    a timer event of the same node and name whose identifier is in the table at that moment, and
+    it reports that event's time. *)
+Theorem C07_timer_callback_only_from_pending_event x0 pre n t name post :
+  accept (t_next A cfg) t_ok x0 (pre ++ KUser (TCb n t (CbTimer name)) :: post) -> t_exp x0 = None ->
+  exists pre' i ts sq id, pre = pre' ++ [KExec i ts sq (EvTimer n name id)] /\ t = pnow A cfg ts /\
+                          In (n, name, id) (t_tbl (after (t_next A cfg) x0 pre')).
+Proof. exact (timer_callback_has_cause A cfg x0 pre n t name post). Qed.
+
+(** IF: the execution of a timer event whose entry is in the table (for an existing node) is
+    immediately followed by its callback. *)
+Theorem C07_pending_timer_event_fires x0 pre i ts sq n name id post :
+  accept (t_next A cfg) t_ok x0 (pre ++ KExec i ts sq (EvTimer n name id) :: post) ->
+  In (n, name, id) (t_tbl (after (t_next A cfg) x0 pre)) -> n < c_nnodes cfg ->
+  (post = [] /\ t_exp (after (t_next A cfg) x0 (pre ++ [KExec i ts sq (EvTimer n name id)])) = Some (n, pnow A cfg ts, CbTimer name)) \/
+  exists post', post = KUser (TCb n (pnow A cfg ts) (CbTimer name)) :: post'.
+Proof.
+  intros Hacc Hin Hn. apply (cause_fires A cfg x0 pre _ post n (pnow A cfg ts) (CbTimer name) Hacc).
+  simpl. apply (pend_id_In n name id) in Hin. rewrite Hin. apply Nat.ltb_lt in Hn. rewrite Hn. reflexivity.
+Qed.
+
+(** AT MOST ONCE, and NEVER AFTER A CANCEL: facts about the acceptor alone. *)
+Theorem C07_fired_never_again x0 pre i ts sq n name id mid n' name' :
+  t_wf x0 -> In (n, name, id) (t_tbl (after (t_next A cfg) x0 pre)) ->
+  ~ In (n', name', id) (t_tbl (after (t_next A cfg) x0 (pre ++ KExec i ts sq (EvTimer n name id) :: mid))).
+Proof.
+  intros Hw Hin Hin'. apply (pend_id_In n name id) in Hin. apply (pend_id_In n' name' id) in Hin'.
+  rewrite (fired_never_again A cfg x0 pre i ts sq n name id mid n' name' Hw Hin) in Hin'. discriminate.
+Qed.
+
+Theorem C07_cancelled_never_fires x0 pre n name mid id :
+  has_timer cfg = true -> (id < t_ctr (after (t_next A cfg) x0 pre))%N ->
+  ~ In (n, name, id) (t_tbl (after (t_next A cfg) x0 (pre ++ KUser (TAct n (ACancel name) Ok) :: mid))).
+Proof.
+  intros Ht Hlt Hin. apply (pend_id_In n name id) in Hin.
+  rewrite (cancelled_never_fires A cfg x0 pre n name mid id Ht Hlt) in Hin. discriminate.
+Qed.
+
 End C07.
 
 (** "exactly once": each accepted timer has its own event (fresh identifier), and by C02 every
@@ -95,6 +146,21 @@ Theorem C07_each_event_once :
     Permutation.Permutation (map key (el_q (k_el s)) ++ scheds items) (map ekey (execs items) ++ map key (el_q (k_el s'))).
 Proof. intros F A OL P H T hk c fuel s. exact (k_run_conservation A OL hk c fuel s). Qed.
 
+(** Non-vacuity: a concrete run (integers as the number type) in which one timer fires and one is
+    cancelled; the replayed table ends empty with two identifiers handed out. *)
+Definition ex_cfg : scfg Z := mkSCfg [HTimer] 1 [(0, 0, 0)%Z] [0] 10%Z 0%Z 0%Z 1%Z 1%Z (0, 0, 0)%Z [] [].
+Definition ex_react (n : nat) (ps : unit) (now : Z) (c : cb Z) : unit * list (action Z) :=
+  match c with
+  | CbInit => (tt, [ASetTimer 0 5%Z; ASetTimer 1 7%Z; ACancel 1])
+  | _ => (tt, [])
+  end.
+Example C07_example :
+  let '(s0, i0) := sim_start NumZ.Z_ops ex_cfg (fun _ => tt) in
+  let '(s', items, fin) := k_run NumZ.Z_ops (sim_hooks NumZ.Z_ops ex_cfg ex_react) (mkCfg None None) 10 s0 in
+  fin = true /\ after (t_next NumZ.Z_ops ex_cfg) t0 (i0 ++ items) = mkT [] 2%N None /\
+  flat_map (fun it => match it with KUser (TCb n t (CbTimer name)) => [(n, t, name)] | _ => [] end) items = [(0, 5%Z, 0)].
+Proof. vm_compute. repeat split. Qed.
+
 Print Assumptions C07_past_refused.
 Print Assumptions C07_set_accepted.
 Print Assumptions C07_cancel_exact.
@@ -106,3 +172,8 @@ Print Assumptions C07_fire_removes_exactly.
 Print Assumptions C07_each_event_once.
 Print Assumptions C07_identifiers_never_reused.
 Print Assumptions C07_identifiers_never_reused_init.
+Print Assumptions C07_whole_run_refines_timer_table.
+Print Assumptions C07_timer_callback_only_from_pending_event.
+Print Assumptions C07_pending_timer_event_fires.
+Print Assumptions C07_fired_never_again.
+Print Assumptions C07_cancelled_never_fires.
